@@ -22,6 +22,7 @@ configuration thresholds are ARBITRARY bit patterns (NaN, ±∞ included) and th
 The send-poll half of C10 (`NtpSource::current_poll_interval`, timer jitter) is in `Props/C10.lean`.
 -/
 import NtpVerif.Proofs.SourceFilterPoll
+import NtpVerif.Proofs.SourceFilterHistory
 
 namespace NtpVerif.C10Filter
 open NtpVerif.SourceFilter NtpVerif.Wrap
@@ -101,6 +102,23 @@ theorem desire_step_shape (s s' : PollState) (cfg : PollCfg) (lim : Limits) (p w
         cases h; rfl
       · right; left; cases h; rfl
 
+/-- **filter_history_desire_in_limits** — the sentence at the level of the whole two-way source filter
+    (`SourceState`: initial collection, promotion, meddling resets, outlier/past rejections, steering
+    messages): after EVERY history of measurements, `Step` and `FreqChange` messages from the initial state
+    that runs to its end, the desired poll interval the filter reports (`get_desired_poll`) lies within the
+    configured limits — for whatever floats the Kalman arithmetic produced. -/
+theorem filter_history_desire_in_limits (sc : SrcCfg) (ac : AlgoCfg) (hc : CfgOk sc ac) (ops : List FOp)
+    (x' : SState × Nat) (h : frun sc ac (SState.new, 0) ops = some x') :
+    sc.lim.min ≤ x'.1.desiredPoll sc.lim ∧ x'.1.desiredPoll sc.lim ≤ sc.lim.max := by
+  rcases frun_cases sc ac hc ops (SState.new, 0) trivial with ⟨y, hy, hinv⟩ | ⟨hn, _⟩
+  · rw [h] at hy; cases hy
+    cases hx : x'.1 with
+    | initial f => simp only [SState.desiredPoll]; have := hc.lim; omega
+    | stable f =>
+      rw [hx] at hinv
+      exact ⟨hinv.1.1, hinv.1.2.1⟩
+  · rw [h] at hn; cases hn
+
 /-! #### non-vacuity -/
 
 /-- the default configuration (limits 4..10, initial 4, hysteresis 16, weights 0.4/0.6, threshold 1e-6)
@@ -138,3 +156,4 @@ end NtpVerif.C10Filter
 #print axioms NtpVerif.C10Filter.filter_desire_in_limits_c10
 #print axioms NtpVerif.C10Filter.initial_desire_is_min
 #print axioms NtpVerif.C10Filter.desire_step_shape
+#print axioms NtpVerif.C10Filter.filter_history_desire_in_limits
